@@ -12,7 +12,9 @@ MONITORS = ['C01']
 
 
 def run(ctx):
-    machine_prop.run(ctx, FAMILIES, MONITORS, extra_scenarios=time_connectives(ctx.rng, ctx.n(60, 1200)))
+    from harness import gen
+    machine_prop.run(ctx, FAMILIES, MONITORS, extra_scenarios=time_connectives(ctx.rng, ctx.n(60, 1200)) +
+                     gen.many_timers(ctx.rng, ctx.n(40, 600)))
     # infinite dates: the clock can reach inf (`time >= inf`, `time + inf`); the kernel model keeps keys strictly
     # above the clock, so what happens AFTER the clock reached inf is outside the model: this family is checked by
     # the arithmetic oracle on the implementation only
